@@ -2374,11 +2374,11 @@ class Parameters:
                 """
                 obj.param._update_deps(attribute)
 
-        p = '.'.join(dynamic_dep.spec.split(':')[0].split('.')[depth+1:])
-        if p == 'param':
-            subparams = [sp for sp in list(subobjs[-1].param)]
+        path = dynamic_dep.spec.split(':')[0].split('.')[depth+1:]
+        if path[-1] == 'param':
+            subparams = ['.'.join(path[:-1] + [sp]) for sp in list(subobjs[-1].param)]
         else:
-            subparams = [p]
+            subparams = ['.'.join(path)]
 
         if ':' in dynamic_dep.spec:
             what = dynamic_dep.spec.split(':')[-1]
